@@ -153,6 +153,22 @@ func c11Subjects(a string, maxLen int) []string {
 		alpha = append(alpha, 'A')
 	}
 	out := []string{""}
+	// the literal words of the pattern and their pairwise concatenations (alternatives like http|https
+	// need subjects longer than the exhaustive length bound)
+	words := regexp.MustCompile(`[a-z]{2,}`).FindAllString(a, -1)
+	seenW := map[string]bool{}
+	for _, w := range words {
+		if !seenW[w] {
+			seenW[w] = true
+			out = append(out, w, w+"z", "z"+w)
+		}
+	}
+	for w1 := range seenW {
+		for w2 := range seenW {
+			out = append(out, w1+w2)
+		}
+	}
+	sort.Strings(out[1:])
 	prev := []string{""}
 	for l := 1; l <= maxLen; l++ {
 		var cur []string
@@ -549,6 +565,5 @@ func c11(args []string) int {
 	ev.Set("max_subject_length", maxLen)
 	ev.Sample(map[string]interface{}{"pattern": "(?:a|b|c)", "rewrite": "[abc]", "subjects": "all strings over {a,b,c,z,\\n} up to length 4", "oracle": "same FindStringSubmatchIndex on every subject, same NumSubexp and SubexpNames"})
 	ev.Set("rule", "pattern syntax trees: 42 atoms x 13 quantifiers; all concatenations of two quantified atoms; three over a reduced alphabet; alternations of 2-3 items bare/grouped/anchored/with context; one level of (capturing and non-capturing) grouping x quantifier over concatenations of <=2 atoms; adjacent identical groups. Patterns of <=60 bytes that Go's regexp accepts are fed to the real checker in batches; every proposed rewrite is compared with the original on all subject strings over the pattern's own characters plus {z, newline} up to the stated length. non-trivial = pattern for which a rewrite was proposed")
-	_ = sort.Strings
 	return ev.Finish()
 }
